@@ -493,6 +493,96 @@ def extract_recv():
     return "\n".join(L) + "\n"
 
 
+# ---------------------------------------------------------------------------
+# C20: guards and peer-data accesses of the hint-handling functions (ast)
+
+HINT_GUARD_TARGETS = [
+    ("wormhole._hints", None, "parse_tcp_v1_hint"),
+    ("wormhole._hints", None, "parse_hint"),
+    ("wormhole._hints", None, "encode_hint"),
+    ("wormhole._hints", None, "endpoint_from_hint_obj"),
+    ("wormhole.transit", "Common", "add_connection_hints"),
+    ("wormhole.transit", "Common", "_connect"),
+    ("wormhole._dilation.manager", "Manager", "use_hints"),
+    ("wormhole._dilation.connector", "Connector", "_use_hints"),
+    ("wormhole._dilation.connector", "Connector", "_schedule_connection"),
+]
+
+
+class _Guards(ast.NodeVisitor):
+    """pre-order (= source order) list of: `if` tests, `.get(...)` calls, `x['k']` subscripts,
+    `'k' in x` tests, `sorted(...)` calls, `for` headers, `raise` statements"""
+
+    def __init__(self):
+        self.out = []
+
+    def visit_If(self, node):
+        self.out.append("if " + ast.unparse(node.test))
+        self.generic_visit(node)
+
+    def visit_IfExp(self, node):
+        self.out.append("ifexp " + ast.unparse(node.test))
+        self.generic_visit(node)
+
+    def visit_For(self, node):
+        self.out.append("for " + ast.unparse(node.target) + " in " + ast.unparse(node.iter))
+        self.generic_visit(node)
+
+    def visit_comprehension(self, node):
+        self.out.append("for " + ast.unparse(node.target) + " in " + ast.unparse(node.iter))
+        self.generic_visit(node)
+
+    def visit_Raise(self, node):
+        self.out.append("raise " + (ast.unparse(node.exc) if node.exc else ""))
+
+    def visit_Call(self, node):
+        if isinstance(node.func, ast.Attribute) and node.func.attr == "get":
+            self.out.append("get " + ast.unparse(node))
+        elif isinstance(node.func, ast.Name) and node.func.id in ("sorted", "filter"):
+            self.out.append("call " + ast.unparse(node))
+        elif isinstance(node.func, ast.Attribute) and node.func.attr == "msg":
+            return  # log.msg(f"...{hint!r}"): formatting with !r never raises
+        self.generic_visit(node)
+
+    def visit_Subscript(self, node):
+        if isinstance(node.slice, ast.Constant) and isinstance(node.slice.value, str):
+            self.out.append("index " + ast.unparse(node))
+        self.generic_visit(node)
+
+    def visit_Compare(self, node):
+        if len(node.ops) == 1 and isinstance(node.ops[0], ast.In) and isinstance(node.left, ast.Constant):
+            self.out.append("in " + ast.unparse(node))
+        self.generic_visit(node)
+
+
+def extract_hint_guards():
+    data = []
+    for module, cls, name in HINT_GUARD_TARGETS:
+        mod = importlib.import_module(module)
+        f = getattr(mod, name) if cls is None else vars(getattr(mod, cls))[name]
+        if hasattr(f, "method") and callable(getattr(f, "method")):
+            f = f.method
+        f = getattr(f, "__wrapped__", f)
+        tree = ast.parse(textwrap.dedent(inspect.getsource(f)))
+        g = _Guards()
+        for n in tree.body[0].body:
+            g.visit(n)
+        data.append(((cls + "." if cls else "") + name, g.out))
+    return data
+
+
+def lean_hint_guards(data):
+    L = ["namespace WV.Gen.HintGuards",
+         "/-- guards and peer-data accesses of the hint-handling code, in source order, extracted by `ast` -/",
+         "def table : List (String × List String) := ["]
+    rows = []
+    for k, items in data:
+        rows.append("  (%s, [\n    %s])" % (lean_str(k), ",\n    ".join(lean_str(i) for i in items)))
+    L.append(",\n".join(rows) + "]")
+    L.append("end WV.Gen.HintGuards")
+    return "\n".join(L) + "\n"
+
+
 def main():
     changed = []
     machines = [dump_machine(*m) for m in MACHINES]
@@ -516,6 +606,9 @@ def main():
         changed.append("Flags")
     if write_if_changed(os.path.join(GEN, "Recv.lean"), hdr + extract_recv()):
         changed.append("Recv")
+    hg = extract_hint_guards()
+    if write_if_changed(os.path.join(GEN, "HintGuards.lean"), hdr + lean_hint_guards(hg)):
+        changed.append("HintGuards")
     summary = {
         "machines": len(machines),
         "transitions": sum(len(m["rows"]) for m in machines),
